@@ -1203,6 +1203,17 @@ where
             .map_err(Error::Io)
     }
 
+    /// Overwrites the blocks of the original stream in place,
+    /// returning success only once the buffered blocks
+    /// have been flushed to that stream
+    fn overwrite_blocks<W: std::io::Write>(original: W, blocks: BlockList) -> Result<(), Error> {
+        use std::io::Write;
+
+        let mut writer = BufWriter::new(original);
+        write_blocks(&mut writer, blocks)?;
+        writer.flush().map_err(Error::Io)
+    }
+
     /// Returns Ok if successful
     fn grow_padding(blocks: &mut BlockList, more_bytes: u64) -> Result<(), ()> {
         // if a block set has more than one PADDING, we'll try the first
@@ -1262,7 +1273,7 @@ where
             match grow_padding(&mut blocks, old_size - new_size) {
                 Ok(()) => {
                     original.seek(start).map_err(Error::Io)?;
-                    write_blocks(BufWriter::new(original), blocks)
+                    overwrite_blocks(original, blocks)
                         .map(|()| false)
                         .map_err(E::from)
                 }
@@ -1274,7 +1285,7 @@ where
         Ordering::Equal => {
             // blocks are the same size, so no need to adjust padding
             original.seek(start).map_err(Error::Io)?;
-            write_blocks(BufWriter::new(original), blocks)
+            overwrite_blocks(original, blocks)
                 .map(|()| false)
                 .map_err(E::from)
         }
@@ -1284,7 +1295,7 @@ where
             match shrink_padding(&mut blocks, new_size - old_size) {
                 Ok(()) => {
                     original.seek(start).map_err(Error::Io)?;
-                    write_blocks(BufWriter::new(original), blocks)
+                    overwrite_blocks(original, blocks)
                         .map(|()| false)
                         .map_err(E::from)
                 }
